@@ -154,7 +154,7 @@ pub fn run(part: &mut Part) {
             }
         }
         "C01" => {
-            let seeds_hash = probe_hash_seeds(&["a", "b", "f"], if q { 2 } else { 6 });
+            let seeds_hash = probe_hash_seeds(&["a", "b", "f"], if q || !TINY { 2 } else { 6 });
             let mut file_end = cursor_seeds(&[3], &[0, 1, 6, 7, 8, 19, 34]);
             file_end.extend(all_dead_seeds());
             let profiles = if TINY {
@@ -211,7 +211,7 @@ pub fn run(part: &mut Part) {
             part.require_outcomes(&["restarts_checked", "reopened", "deleted", "truncated-n"]);
         }
         "C04" => {
-            let seeds_hash = probe_hash_seeds(&["a", "b", "f"], if q { 2 } else { 6 });
+            let seeds_hash = probe_hash_seeds(&["a", "b", "f"], if q || !TINY { 2 } else { 6 });
             let mut seeds = vec![seed_empty_old(), seed_gc_ready(), seed_two_files(), seed_three_files(), seed_interleaved(), seed_future(), seed_recreated()];
             seeds.extend(all_dead_seeds());
             let profiles = if TINY {
@@ -240,7 +240,7 @@ pub fn run(part: &mut Part) {
             // by a completed call may be reachable again
             let mut cseeds = vec![seed_empty_old(), seed_gc_ready(), seed_two_files(), seed_future()];
             cseeds.extend(gc_spill_seeds().into_iter().step_by(if q { 3 } else { 1 }));
-            let cprofiles = vec![prof("GC seeds x A_write (crash)", cseeds, a_write(), if TINY { if q { 2 } else { 3 } } else if q { 1 } else { 2 }), all_seeds_prof(a_write(), if q { 1 } else { 2 }, q)];
+            let cprofiles = vec![prof("GC seeds x A_write (crash)", cseeds, a_write(), if TINY { if q { 2 } else { 3 } } else { 1 }), all_seeds_prof(a_write(), if q { 1 } else { 2 }, q)];
             let ccfgs: Vec<CrashCfg> = seeds_hash.iter().map(|(hs, _)| CrashCfg {
                 property: "C04", oracle: Oracle::C04, policy: PolicyCfg::Default, hash_seed: *hs, power_loss: false, second_crash: true, cont_struct: 1, cont_other: if q { 0 } else { 1 }, initial_open: false,
             }).collect();
